@@ -1,6 +1,7 @@
 import PvModel.Props.C06
 import PvModel.Props.C07Rel
 import PvModel.Props.C06Rel
+import PvModel.Props.C06Query
 #print axioms Pv.C06_step_perm
 #print axioms Pv.C06_finite
 #print axioms Pv.C06_ref
@@ -11,3 +12,4 @@ import PvModel.Props.C06Rel
 #print axioms Pv.C06_rel_no_invention
 #print axioms Pv.C06_rel_same_as_dfs
 #print axioms Pv.C06_rel_call_twin
+#print axioms Pv.C06_query_answers_exact
